@@ -1,6 +1,6 @@
 """C17 Series and discrete domains stay sorted, finite and function-preserving - structural (typestate) clauses."""
 from vpa import evaluators as E
-from vpa.core import show, Site, simplify
+from vpa.core import show, Site, simplify, subterms
 from vpa.pattern import match, find
 
 EXPLANATION = """Typestate obligations behind C17: DiscreteDomain.values is private with no mutable hand-out, so the ascending/finite
@@ -341,25 +341,38 @@ def run_series_functions(cx):
     # ---------------------------------------------------------------- y_crossings
     b = cx.fn(f'{S1}::y_crossings')
     if b:
-        Y0 = '(index (field y (param self)) $j)'
-        Y1 = '(index (field y (param self)) (add 1 $j))'
+        def crossing_site(body, bb, v, SELF, LEVEL):
+            """the value v produced at block bb of body is the crossing formula of segment $j, under the closed two-sided test and nothing narrower"""
+            Y0 = f'(index (field y {SELF}) $j)'
+            Y1 = f'(index (field y {SELF}) (add 1 $j))'
+            e = match(f'(add (index (field x {SELF}) $j) (div (sub {LEVEL} (index (field y {SELF}) $j)) '
+                      f'(div (sub (index (field y {SELF}) (add 1 $j)) (index (field y {SELF}) $j)) (sub (index (field x {SELF}) (add 1 $j)) (index (field x {SELF}) $j)))))', v)
+            if e is None:
+                return None
+            # closed test on both ends of the segment: (v0<=y and v1>=y) or (v0>=y and v1<=y)
+            o2, off = cx.all_paths(body, bb, lambda has: (has(f'(le {Y0} {LEVEL})', True, e) and has(f'(le {LEVEL} {Y1})', True, e)) or
+                                   (has(f'(le {LEVEL} {Y0})', True, e) and has(f'(le {Y1} {LEVEL})', True, e)))
+            # ... and nothing narrower: the strict forms must not be what guards the value
+            strict, _ = cx.all_paths(body, bb, lambda has: has(f'(lt {LEVEL} {Y1})', True, e) or has(f'(lt {Y1} {LEVEL})', True, e) or
+                                     has(f'(lt {Y0} {LEVEL})', True, e) or has(f'(lt {LEVEL} {Y0})', True, e))
+            return e['j'] if (o2 and not strict) else None
+        RNG = '(range 0 (sub (len (field y (param self))) 1))'
         pushes = b.calls('Vec::push')
-        ok = len(pushes) == 1
-        if ok:
+        ok = False
+        if len(pushes) == 1:
             s = pushes[0]
-            v = cx.arg(s, 1)
-            e = match('(add (index (field x (param self)) $j) (div (sub (param y_equals) (index (field y (param self)) $j)) '
-                      '(div (sub (index (field y (param self)) (add 1 $j)) (index (field y (param self)) $j)) (sub (index (field x (param self)) (add 1 $j)) (index (field x (param self)) $j)))))', v)
-            ok = e is not None and match('(itervar (range 0 (sub (len (field y (param self))) 1)))', e['j']) is not None
-            if ok:
-                # closed test on both ends of the segment: (v0<=y and v1>=y) or (v0>=y and v1<=y)
-                o2, off = cx.all_paths(b, s.bb, lambda has: (has(f'(le {Y0} (param y_equals))', True, e) and has(f'(le (param y_equals) {Y1})', True, e)) or
-                                       (has(f'(le (param y_equals) {Y0})', True, e) and has(f'(le {Y1} (param y_equals))', True, e)))
-                ok = o2
-                # ... and nothing narrower: the strict forms must not be what guards the push
-                strict, _ = cx.all_paths(b, s.bb, lambda has: has(f'(lt (param y_equals) {Y1})', True, e) or has(f'(lt {Y1} (param y_equals))', True, e) or
-                                         has(f'(lt {Y0} (param y_equals))', True, e) or has(f'(lt (param y_equals) {Y0})', True, e))
-                ok = ok and not strict
+            j = crossing_site(b, s.bb, cx.arg(s, 1), '(param self)', '(param y_equals)')
+            ok = j is not None and match(f'(itervar {RNG})', j) is not None
+        elif not pushes:
+            # the same as (0..len-1).filter_map(|j| ..).collect(): one Some exit of the closure carries the formula under the same test
+            fm = find(f'(call Iterator::collect (call Iterator::filter_map (agg *Range (start 0) (end (sub (len (field y (param self))) 1))) (closure * ...)))', cx.retval(b))
+            clo = [x for x in subterms(fm[0]) if x[0] == 'closure'] if fm else []
+            cl = cx.closure_body(clo[0][1]) if len(clo) == 1 else None
+            if cl is not None:
+                somes = [(s2, d2) for s2, d2 in cx.rets(cl) if d2[0] == 'agg' and d2[1].endswith('Option::Some')]
+                if len(somes) == 1:
+                    j = crossing_site(cl, somes[0][0].bb, dict(somes[0][1][2:]).get('0'), '(field cap:self (param 1))', '(field cap:y_equals (param 1))')
+                    ok = j is not None and match('(param 2)', j) is not None
         cx.ob('GUARD', 'Series1::y_crossings', ok,
               'a crossing x0 + (level - y0)/slope is reported for every segment whose CLOSED ordinate range [min(y0,y1), max(y0,y1)] contains the level (a level met exactly at a knot, the last one included, is a crossing)',
               where=b.file)
